@@ -377,7 +377,7 @@ fn mall_world() -> (Covercrypt, MasterSecretKey, MasterPublicKey, Vec<UserSecret
     (cc, msk, mpk, keys)
 }
 
-// @obl props=C07,C14 tier=quick fn=core::primitives::decaps shape="classic (1 and 2 targets) and hybridized encapsulations: every single-byte change (xor 0x01 and 0x80) of the serialized form, 3 keys, real cryptography"
+// @obl props=C07,C14 tier=quick fn=core::primitives::decaps shape="classic (1 and 2 targets) and hybridized encapsulations: every single-bit change of the serialized form (all 8 bits; 2 bits in the middle of ML-KEM ciphertexts), 3 keys, real cryptography"
 #[test]
 fn malleability__every_byte_of_an_encapsulation_is_bound() {
     let (cc, _msk, mpk, keys) = mall_world();
@@ -385,15 +385,17 @@ fn malleability__every_byte_of_an_encapsulation_is_bound() {
     for e in ["SEC::LOW && DPT::HR", "(SEC::LOW && DPT::HR) || DPT::MKG", "SEC::TOP && DPT::FIN", "(SEC::TOP && DPT::FIN) || (SEC::TOP && DPT::MKG)"] {
         let (ss, enc) = cc.encaps(&mpk, &ap(e)).unwrap();
         let bytes = enc.serialize().unwrap().to_vec();
+        let small = bytes.len() < 400;
         for pos in 0..bytes.len() {
-            for flip in [0x01u8, 0x80u8] {
+            // every bit of every byte for classic encapsulations and for the head / tail of hybridized ones
+            let flips: &[u8] = if small || pos < 128 || pos + 40 >= bytes.len() { &[0x01, 0x02, 0x04, 0x08, 0x10, 0x20, 0x40, 0x80] } else { &[0x01, 0x80] };
+            for flip in flips {
                 let mut b = bytes.clone();
                 b[pos] ^= flip;
-                let parsed = XEnc::deserialize(&b);
-                if let Ok(m) = parsed {
+                if let Ok(m) = XEnc::deserialize(&b) {
                     for (ki, usk) in keys.iter().enumerate() {
                         if let Ok(Some(got)) = cc.decaps(usk, &m) {
-                            assert!(m == enc, "C07: flipping byte {pos} (xor {flip:#x}) of the encapsulation for '{e}' is accepted by key {ki} (returns {})", if got == ss { "the original secret" } else { "a different secret" });
+                            panic!("C07: flipping bit {flip:#x} of byte {pos} of the serialized encapsulation for '{e}' ({} bytes) is accepted by key {ki} (returns {})", bytes.len(), if got == ss { "the original secret" } else { "a different secret" });
                         }
                         n += 1;
                     }
